@@ -371,7 +371,7 @@ func readTrace(path string, r *runInfo) {
 		r.Lines = append(r.Lines, m[2])
 		t, _ := strconv.ParseFloat(m[3], 64)
 		r.Times = append(r.Times, t)
-		r.Cmds = append(r.Cmds, m[4])
+		r.Cmds = append(r.Cmds, normCmd(m[4]))
 	}
 }
 
@@ -541,9 +541,17 @@ func hookMain(args []string) int {
 	return 0
 }
 
+// normCmd: the command text as bash reports it, without quote characters and with single blanks, so
+// that the few places that look at the text (which window was a run killed in, did it get past
+// flock) do not depend on how the script quotes its words.
+func normCmd(c string) string {
+	c = strings.NewReplacer("\"", "", "'", "", "${POLICY}", "$POLICY").Replace(c)
+	return strings.Join(strings.Fields(c), " ")
+}
+
 // isExternal: does this main-shell command run as a child process (text as bash reports it)?
 func isExternal(cmd string, gitFn bool) bool {
-	f := strings.Fields(cmd)
+	f := strings.Fields(normCmd(cmd))
 	if len(f) == 0 {
 		return false
 	}
